@@ -602,13 +602,21 @@ def pick_shape(ctx, tier, fam, kind):
     return asn4, addpath, has_pid, extnh, extmsg
 
 
-def h_route(ctx, tier, famname, kind, profiles):
+def h_route(ctx, tier, famname, kind, profiles, warm=False):
     fam = FAMILIES[famname]
     d = decider(ctx)
     asn4, addpath, has_pid, extnh, extmsg = pick_shape(ctx, tier, fam, kind)
     neg, facts = mk_session(fam, kind, asn4, addpath, extnh, extmsg)
     if not session_sane(ctx, neg, facts, fam):
         return 'session'
+    other = None
+    if warm:
+        # the SAME route and attribute objects were first sent on another session of the same AS pair whose peer differs in
+        # 4-octet-AS support (one API announce addressed to two peers): what this session sends must not depend on that
+        other, ofacts = mk_session(fam, kind, not asn4, addpath, extnh, extmsg)
+        if not session_sane(ctx, other, ofacts, fam):
+            return 'session'
+        ctx.cover('sent-on-another-session-first')
     profile = ctx.pick('profile', profiles)
     vary = profile == 'defaults'
     if tier == 'thorough':
@@ -616,10 +624,10 @@ def h_route(ctx, tier, famname, kind, profiles):
     nlri, req = mk_nlri(ctx, fam, tier, has_pid, vary=vary)
     nh, ip = mk_nexthop(ctx, fam['alen'])
     nh_attr = NextHop.from_packet(nh)
-    return run_one(ctx, neg, facts, fam, d, profile, [(nlri, req, nh, ip)], nh_attr)
+    return run_one(ctx, neg, facts, fam, d, profile, [(nlri, req, nh, ip)], nh_attr, other)
 
 
-def run_one(ctx, neg, facts, fam, d, profile, items, nh_attr):
+def run_one(ctx, neg, facts, fam, d, profile, items, nh_attr, other=None):
     try:
         attributes, areq = mk_attributes(ctx, profile, nh_attr)
     except BuildRefused as br:
@@ -629,6 +637,8 @@ def run_one(ctx, neg, facts, fam, d, profile, items, nh_attr):
                   info={'factory': br.how, 'raised': '%s: %s' % (exc_name(br.exc), br.exc)})
         return [profile, 'refused']
     routed = [RoutedNLRI(nlri, ip) for nlri, _, _, ip in items]
+    if other is not None:
+        emit(ctx, other, routed, attributes)
     out = emit(ctx, neg, routed, attributes)
     if isinstance(out, tuple):
         ctx.check('emits', False, sig='C01:emit:raised:%s' % exc_name(out[1]), info={'raised': '%s: %s' % (exc_name(out[1]), out[1])})
@@ -830,6 +840,10 @@ def units(tier):
         for kind in ('ebgp-local4', 'ibgp4', 'ebgp-peer4'):
             us.append(U('%s/%s' % (f, kind), lambda ctx, f=f, k=kind: h_route(ctx, tier, f, k, ['defaults', 'basic']),
                         must_cover=('emitted', 'addpath-pathid'), max_seconds=budget, weight=40))
+    for f in (('ipv4-unicast', 'ipv6-unicast') if thorough else ('ipv4-unicast',)):
+        for kind in ('ibgp', 'ebgp'):
+            us.append(U('resent/%s/%s' % (f, kind), lambda ctx, f=f, k=kind: h_route(ctx, 'quick', f, k, ['basic'], warm=True),
+                        must_cover=('emitted', 'sent-on-another-session-first', 'as-trans+as4-path'), max_seconds=budget, weight=60))
     for f in (('ipv4-unicast', 'ipv6-unicast') if thorough else ('ipv4-unicast',)):
         for kind in ('ibgp', 'ebgp'):
             us.append(U('long-path/%s/%s' % (f, kind), lambda ctx, f=f, k=kind: h_route(ctx, 'quick', f, k, ['long']),
